@@ -406,6 +406,8 @@ impl GdsImporter {
 //|             assert(!rotated ==> xstep == xs && ystep == ys);
 //|             assert(c * w <= 0x7fff * 0x7fff) by (nonlinear_arith) requires 0 < c <= 0x7fff, 0 < w <= 0x7fff;
 //|             assert(0 * w == 0) by (nonlinear_arith);
+//|             assert((aref.rows as usize) as int == w && (aref.cols as usize) as int == c);
+//|             assert(w * c <= 0x7fff * 0x7fff) by (nonlinear_arith) requires 0 < c <= 0x7fff, 0 < w <= 0x7fff;
 //|         }
 //@   loop 1
 //|             invariant c == aref.cols as int, w == aref.rows as int, 0 < c <= 0x7fff, 0 < w <= 0x7fff,
